@@ -423,6 +423,8 @@ class Kernel:
                     return f"(pyMod {a} {b})", "int"
             if ta == tb and ta in ("str", "bytes") and isinstance(e.op, ast.Add):
                 return f"({a} ++ {b})", ta
+            if ta == tb and isinstance(ta, tuple) and ta[0] == "list" and isinstance(e.op, ast.Add):
+                return f"({a} ++ {b})", ta
             if ta == "bytes" and tb == "int" and isinstance(e.op, ast.Mult):
                 return f"(PyRt.bytesRepeat {a} {b})", "bytes"
             raise Unsupported(f"operator {type(e.op).__name__} on {ta}, {tb}")
